@@ -318,11 +318,15 @@ Proof.
     destruct f; try (rewrite S; exact X). destruct pc; try (rewrite S; exact X). cbn. inversion X; subst. constructor; [exact I | assumption].
   - pose proof (total_step m_gdone (threads s) t th (sh s) s1 th1 wake eq_refl N) as T1.
     assert (T0 : total m_gdone (ST (sh s) (threads s)) = total m_gdone s) by (destruct s; reflexivity). rewrite T0 in T1.
-    intros [Q|Q].
-    + destruct D2 as [D2|D2]; [|exact D2]. assert (c_nitems c <= gnext (sh s)) by (apply GD; left; lia). lia.
+    intros [Q|Q]; cbn [sh] in Q |- *.
+    + destruct D2 as [D2|D2]; [|exact D2].
+      assert (P0 : 0 < total m_gdone s).
+      { revert Q T1 D2. generalize (total m_gdone (ST s1 (set_nth (if wake then wake_all (threads s) else threads s) t th1))).
+        generalize (dlt m_gdone (sh s) th s1 th1). generalize (total m_gdone s). intros a b d Q T1 D2. lia. }
+      assert (c_nitems c <= gnext (sh s)) by (apply GD; left; exact P0). cbn [sh]. lia.
     + destruct D3 as [D3|(f & r & Hs & Hf)].
-      * assert (c_nitems c <= gnext (sh s)) by (apply GD; right; lia). lia.
-      * pose proof (top_le_total m_gdone s t th f r nonneg_gdone N Hs). assert (c_nitems c <= gnext (sh s)) by (apply GD; left; lia). lia.
+      * assert (c_nitems c <= gnext (sh s)) by (apply GD; right; lia). cbn [sh]. lia.
+      * pose proof (top_le_total m_gdone s t th f r nonneg_gdone N Hs). assert (c_nitems c <= gnext (sh s)) by (apply GD; left; lia). cbn [sh]. lia.
 Qed.
 
 Theorem phase_invariants c s :
@@ -336,4 +340,126 @@ Proof.
   - intros s1 t ch s1' ch' site (W & P & O & G & N & Ph) E.
     split; [eapply WF_mstep; eauto|]. split; [eapply PoolInv_mstep; eauto|]. split; [eapply OutInv_mstep; eauto|].
     split; [eapply GenInv_mstep; eauto|]. split; [eapply NTInv_mstep; eauto | eapply PhaseInv_mstep; eauto].
+Qed.
+
+(* ---------- at the end nothing is anywhere ---------- *)
+Lemma total_le a b s :
+  (forall f, mf a f <= mf b f) -> (forall j x, mq a j x <= mq b j x) -> (forall x, mb a x <= mb b x) -> (forall e, me a e <= me b e) ->
+  total a s <= total b s.
+Proof.
+  intros F Q B E. unfold total, shw, thsw, bagw, logw, stackw.
+  assert (G : forall k gs, gatesw a k gs <= gatesw b k gs).
+  { intros k gs; revert k; induction gs as [|g r IH]; intros k; cbn [gatesw]; [lia|]. specialize (IH (S k)).
+    assert (qw a k (g_q g) <= qw b k (g_q g)) by (unfold qw; apply sumf_le; intros; apply Q). lia. }
+  specialize (G 0%nat (gates (sh s))).
+  assert (sumf (fun e => mb a (snd e)) (bag (sh s)) <= sumf (fun e => mb b (snd e)) (bag (sh s))) by (apply sumf_le; intros; apply B).
+  assert (sumf (me a) (log (sh s)) <= sumf (me b) (log (sh s))) by (apply sumf_le; intros; apply E).
+  assert (sumf (fun th => sumf (mf a) (stack th)) (threads s) <= sumf (fun th => sumf (mf b) (stack th)) (threads s)) by
+    (apply sumf_le; intros; apply sumf_le; intros; apply F).
+  lia.
+Qed.
+
+Definition m_gl : meas := MS (fun f => match f with FGen pc => bz (gen_live pc) | _ => 0 end) (fun _ _ => 0) (fun _ => 0) (fun _ => 0).
+
+Lemma gl_le_genc c s : WF c s -> total m_gl s <= total (m_genc c) s.
+Proof.
+  intros [WS WT]. unfold total.
+  assert (S0 : shw m_gl (sh s) = 0).
+  { unfold shw. rewrite gatesw_zero by reflexivity. unfold bagw, logw. rewrite !sumf_zero; [reflexivity | |]; intros; reflexivity. }
+  assert (S1 : 0 <= shw (m_genc c) (sh s)).
+  { unfold shw. rewrite gatesw_zero by reflexivity. unfold bagw, logw.
+    assert (0 <= sumf (fun e => mb (m_genc c) (snd e)) (bag (sh s))) by (apply sumf_nonneg; intros [p []]; cbn; lia).
+    assert (0 <= sumf (me (m_genc c)) (log (sh s))) by (apply sumf_nonneg; intros; apply bz_nonneg). lia. }
+  assert (thsw m_gl (threads s) <= thsw (m_genc c) (threads s)); [|lia].
+  unfold thsw. apply sumf_le. intros th Hth. unfold stackw. apply sumf_le. intros f Hf.
+  rewrite Forall_forall in WT. specialize (WT th Hth). unfold wf_thread in WT. rewrite Forall_forall in WT. specialize (WT f Hf).
+  pose proof (ninst_pos c). destruct f; cbn [mf m_gl m_genc]; try lia.
+  - destruct pc; cbn in *; lia.
+  - destruct tk; try lia. destruct pc; lia.
+Qed.
+
+Ltac bzs := repeat match goal with |- context [bz ?b] => let H := fresh in pose proof (bz_nonneg b) as H; generalize dependent (bz b); intros end.
+Ltac pw :=
+  unfold wait_holds, sched_pre, post_pc, gen_live;
+  repeat (cbn [bz andb orb Nat.eqb];
+          match goal with
+          | |- context [match ?x with _ => _ end] => is_var x; destruct x
+          | |- context [Nat.eqb ?a ?b] => destruct (Nat.eqb a b)
+          | |- context [tagis ?a ?b] => destruct (tagis a b)
+          end);
+  cbn [bz andb orb]; try lia.
+
+Lemma pre0_le tag s : total (m_pre 0 tag) s <= total (mplus (m_out 0) m_gl) s.
+Proof.
+  apply total_le.
+  - intros f. cbn [mf m_pre mplus m_out m_gl]. unfold pre_f. pw.
+  - intros j x. cbn [mq m_pre mplus m_out m_gl]. unfold pre_q. pw.
+  - intros x. cbn [mb m_pre mplus m_out m_gl]. unfold pre_b. pw.
+  - intros e. cbn [me m_pre mplus m_out m_gl]. bzs; lia.
+Qed.
+
+Lemma preS_le j0 tag s : total (m_pre (S j0) tag) s <= total (mplus (m_out (S j0)) (m_out j0)) s.
+Proof.
+  apply total_le.
+  - intros f. cbn [mf m_pre mplus m_out]. unfold pre_f. pw.
+  - intros j x. cbn [mq m_pre mplus m_out]. unfold pre_q. pw.
+  - intros x. cbn [mb m_pre mplus m_out]. unfold pre_b. pw.
+  - intros e. cbn [me m_pre mplus m_out]. bzs; lia.
+Qed.
+
+Lemma post_le j0 tag s : total (m_post j0 tag) s <= total (m_out j0) s.
+Proof.
+  apply total_le.
+  - intros f. cbn [mf m_post m_out]. unfold post_f. pw.
+  - intros j x. cbn [mq m_post m_out]. unfold z3. bzs; lia.
+  - intros x. cbn [mb m_post m_out]. pw.
+  - intros e. cbn [me m_post m_out]. bzs; lia.
+Qed.
+
+(* ---------- "finished here" events only where the configuration says so ---------- *)
+Definition fin_ok (c : cfg) (e : event) : Prop :=
+  e_kind e = 17 -> drops_at c (Z.to_nat (e_j e)) (e_tag e, 0) = true \/ (nstages c <= S (Z.to_nat (e_j e)))%nat.
+
+Lemma strand_q_fin c t j q s : Forall (fin_ok c) (log s) -> Forall (fin_ok c) (log (strand_q t j q s)).
+Proof. revert s; induction q as [|[p it] q IH]; intros s F; cbn; [exact F|]. apply IH. cbn. constructor; [unfold fin_ok; cbn; discriminate | exact F]. Qed.
+Lemma strand_gates_fin c t j gs s : Forall (fin_ok c) (log s) -> Forall (fin_ok c) (log (strand_gates t j gs s)).
+Proof. revert j s; induction gs as [|g r IH]; intros j s F; cbn; [exact F|]. apply IH. apply strand_q_fin. exact F. Qed.
+
+Lemma fin_local c t s th ch s1 th1 ch1 site wake :
+  Forall (fin_ok c) (log s) -> mstep_thread c t s th ch = Some (s1, th1, ch1, site, wake) -> Forall (fin_ok c) (log s1).
+Proof.
+  intros F H. step_cases H th.
+  all: mnorm.
+  all: repeat match goal with
+       | |- Forall _ (log (strand_gates _ _ _ _)) => apply strand_gates_fin
+       | |- Forall _ (_ :: _) => constructor
+       end; cbn [log w_exc w_result] in *; try assumption.
+  all: unfold fin_ok; cbn [e_kind e_j e_tag ev zj]; try discriminate.
+  all: intros _; rewrite Nat2Z.id; bool_hyps.
+  all: match goal with E : (drops_at _ _ _ || _)%bool = true |- _ => apply orb_true_iff in E; destruct E as [E|E]; [left | right; apply Nat.leb_le; exact E] end.
+  all: unfold drops_at in *; cbn [fst] in *; exact E.
+Qed.
+
+Theorem fin_invariant c s : reach (mstep c) (init c) s -> Forall (fin_ok c) (log (sh s)).
+Proof.
+  intros R. apply (reach_inv (mstep c) (fun s => Forall (fin_ok c) (log (sh s))) (init c)); [constructor | | exact R].
+  intros s1 t ch s1' ch' site I E. apply mstep_inv in E. destruct E as (th & s2 & th1 & wake & N & M & ->). cbn [sh]. eapply fin_local; eauto.
+Qed.
+
+Lemma count_ev_zero k j tag l : (forall e, In e l -> e_kind e <> k) -> count_ev k j tag l = 0.
+Proof.
+  intros H. unfold count_ev. apply sumf_zero. intros e He. unfold evw. destruct (Z.eqb_spec (e_kind e) k) as [E|E]; [exfalso; exact (H e He E) | reflexivity].
+Qed.
+Lemma total_lost_zero j tag s :
+  (forall e, In e (log (sh s)) -> e_kind e <> 7 /\ e_kind e <> 8 /\ e_kind e <> 11 /\ e_kind e <> 12 /\ e_kind e <> 15) -> total (m_lost j tag) s = 0.
+Proof.
+  intros H. unfold total, shw. rewrite gatesw_zero by reflexivity.
+  assert (B : bagw (m_lost j tag) (bag (sh s)) = 0) by (unfold bagw; apply sumf_zero; intros; reflexivity).
+  assert (T : thsw (m_lost j tag) (threads s) = 0).
+  { unfold thsw. apply sumf_zero. intros th _. unfold stackw. apply sumf_zero. intros; reflexivity. }
+  assert (L : logw (m_lost j tag) (log (sh s)) = 0).
+  { unfold logw. apply sumf_zero. intros e He. cbn [me m_lost]. unfold lostw, evw. destruct (H e He) as (A1 & A2 & A3 & A4 & A5).
+    destruct (Z.eqb_spec (e_kind e) 7), (Z.eqb_spec (e_kind e) 8), (Z.eqb_spec (e_kind e) 11), (Z.eqb_spec (e_kind e) 12), (Z.eqb_spec (e_kind e) 15); try contradiction.
+    reflexivity. }
+  lia.
 Qed.
